@@ -102,7 +102,10 @@ class UnitsAdapter:
             if act == 'plain':
                 return 'accepted', cls.new_unit(self.sym_arg(it['sym']))
             if act == 'term':
-                t = self.Term([(self.unit(s), e) for s, e in it['items']])
+                items = [(self.unit(s), e) for s, e in it['items']]
+                if tuple(it['f']) != (0, 0):
+                    items = [(int(frac(it['f'])), it['n'])] + items        # a plain Python int as numeric item
+                t = self.Term(items)
                 return 'accepted', cls.new_unit(self.sym_arg(it['sym']), None, t)
             if act == 'derive':
                 return 'accepted', cls.derive_unit_from(*[self.unit(s) for s in it['items']],
